@@ -83,6 +83,11 @@ LeafTable ==
     allof  |-> L([type |-> <<"object">>, allOf |-> <<("type" :> <<"object">>) @@ ("properties" :> <<[k |-> "p", s |-> Int_]>>) @@ ("required" :> <<"p">>),
                              ("type" :> <<"object">>) @@ ("properties" :> <<[k |-> "q", s |-> Str_]>>)>>],
                  <<JObj(<<KV("p", JNum(4))>>), JObj(<<>>), JObj(<<KV("p", JNum(4)), KV("q", SA)>>), JObj(<<KV("p", JNum(4)), KV("q", JNum(4))>>)>>,
+                 JObj(<<KV("p", JNum(4))>>)),
+    \* the same conjunction without a `type` of its own (as a definition it was referenced as interface{} before fix 843f8be)
+    allofnt |-> L([allOf |-> <<("type" :> <<"object">>) @@ ("properties" :> <<[k |-> "p", s |-> Int_]>>) @@ ("required" :> <<"p">>),
+                             ("type" :> <<"object">>) @@ ("properties" :> <<[k |-> "q", s |-> Str_]>>)>>],
+                 <<JObj(<<KV("p", JNum(4))>>), JObj(<<>>), JObj(<<KV("p", JNum(4)), KV("q", SA)>>), JObj(<<KV("p", JNum(4)), KV("q", JNum(4))>>)>>,
                  JObj(<<KV("p", JNum(4))>>)) ]
 Leaves == DOMAIN LeafTable
 \* the other leaf of the two-target layouts
